@@ -715,12 +715,18 @@ def generate(prop: str, seed: int, tier: str = "quick", fault_free: bool = False
     ops = ops[:(400 if big else 48)]
     if "derive_fail" in faults and any(d["typed"] >= 0 for d in datasets):
         ops = _add_nested_failures(st.get("faults3"), ops)
+    if "threads" in faults:
+        ops = _add_lib_threads(st.get("faults6"), ops, prop)
     if "reentrancy" in faults:
         ops = _add_reentrancy(st.get("faults5"), ops, config, prop)
     if "lifetime" in faults:
         ops = _add_lifetime(st.get("faults4"), ops, config["sites"], prop)
     if "crash_point" in faults:
         ops = _add_crash_points(x, ops)
+    if any(o.get("chain_burst") for o in ops):
+        # the checker's own ast.dump of a 260-step chain needs more than python's default limit
+        config["env"]["reclimit"] = None
+        config["live_cap"] = 12
     return {
         "property": prop,
         "engine": "forest",
@@ -745,6 +751,22 @@ REENT_SITES = [
     ("Where", "lambda e: e.a > REENT.val - K0.A", ["K0.A"]),
     ("Select", "lambda G0: G0.b + REENT.val", []),
 ]
+
+
+def _add_lib_threads(x, ops, prop):
+    "Blocks of user threads that use the library concurrently, pre-empted between its lines."
+    kinds = {"C11": ["derive", "derive", "site", "clean", "hash"],
+             "C12": ["clean", "clean", "derive", "hash"],
+             "C16": ["lookup", "lookup", "derive", "hash"],
+             "C04": ["site", "site", "site", "derive"]}[prop]
+    out = []
+    for op in ops:
+        out.append(op)
+        if op["op"] in ("derive", "qmd", "md", "exec_sync") and x.random() < 0.08:
+            out.append({"op": "mt_lib", "p": x.choice([0.03, 0.1, 0.3]),
+                        "threads": [{"kind": x.choice(kinds), "stream": x.randrange(64),
+                                     "lam": x.randrange(64)} for _ in range(x.randint(2, 3))]})
+    return out
 
 
 def _add_reentrancy(x, ops, config, prop):
@@ -781,6 +803,20 @@ def _burst(x, sites, prop):
     n = x.choice([64, 150, 200, 300])
     every = x.choice([1, 7, 50, 10 ** 6])
     parent = x.randrange(64)
+    if prop in ("C11", "C12") and x.random() < 0.35:
+        # one very long derivation path (a generated analysis: hundreds of steps on one branch),
+        # executed at the end by a back end that translates what it receives in place
+        out = [{"op": "derive", "parent": parent, "lam": x.randrange(64), "mode": "str",
+                "chain_burst": True}]
+        for i in range(x.choice([150, 210, 260])):
+            out.append({"op": "derive", "parent": -1, "lam": x.randrange(64), "mode": "str",
+                        "src": x.choice([["Select", f"lambda e: e.x + {i}"], ["Where", f"lambda e: e.x > {i}"]])
+                        if x.random() < 0.7 else None})
+            if x.random() < 0.02:
+                out.append({"op": "md", "parent": -1, "md": {}})
+        out.append({"op": "exec_sync", "stream": -1, "titled": True, "override": False,
+                    "plan": ["ok", 0.0, "token"], "backend": "passes"})
+        return out
     if prop == "C16" or x.random() < 0.25:
         # one derivation path with hundreds of QMetaData calls (a loop that records every cut):
         # a few keys set early, some of them twice, then a long tail of other settings
@@ -1247,6 +1283,12 @@ class Forest:
                 from func_adl.ast import change_extension_functions_to_calls as to_calls
                 from func_adl.ast.function_simplifier import simplify_chained_calls
 
+                # ... and a translation step of its own that edits what it was handed in place:
+                # operator names into the back end's dialect, a hint keyword on every call
+                for n in list(ast.walk(a)):
+                    if isinstance(n, ast.Call) and isinstance(n.func, ast.Name):
+                        n.func.id = n.func.id.lower()
+                        n.keywords.append(ast.keyword(arg="hint", value=ast.Constant(1)))
                 try:
                     b = aggregate_node_transformer().visit(to_calls(a))
                     # fusing a long chain can take time exponential in its length (each fusion
@@ -1915,7 +1957,19 @@ class Forest:
                                 {"site": site["lam"], "exc": type(ex).__name__,
                                  "msg": str(ex)[:200], "shadow": site.get("shadow")})
             return
+        lam_rec = self.judge_site(site, k, new, refs)
+        twin = None
+        if "C16" in self.oracles and parent.twin is not None:
+            twin, _ = self.builder(lambda: site_fn(parent.twin))
+        self.stat("derive_ok")
+        self.stat("derive_site")
+        m = self.add_stream(new, parent.root, parent, site["op"], twin=twin, lam_rec=lam_rec)
+        self.check_root(new, m.root, "derive-site")
+
+    def judge_site(self, site, k, new, refs):
+        "Oracles on the stream a call site returned: value at call, closedness, literal types."
         lam_rec = None
+        c = self.client
         if "C04" in self.oracles:
             lam = new.query_ast.args[1]
             got = self.eval_lambda(lam)
@@ -1950,13 +2004,7 @@ class Forest:
                                                  "type": type(n.value).__name__})
             lam_rec = {"dump": ast.dump(lam), "refs": refs, "site": k, "text": _safe_unparse(lam),
                        "flatten": fl}
-        twin = None
-        if "C16" in self.oracles and parent.twin is not None:
-            twin, _ = self.builder(lambda: site_fn(parent.twin))
-        self.stat("derive_ok")
-        self.stat("derive_site")
-        m = self.add_stream(new, parent.root, parent, site["op"], twin=twin, lam_rec=lam_rec)
-        self.check_root(new, m.root, "derive-site")
+        return lam_rec
 
     def op_md(self, op):
         parent = self.ref(op, "parent")
@@ -2563,6 +2611,90 @@ class Forest:
             for c in cs:
                 self.check_call(c)
 
+    def op_mt_lib(self, op):
+        """Several user threads use the library at the same time - deriving, looking metadata
+        up, hashing, cleaning a query - and the simulator decides after which LINE of the
+        library another thread runs (sim/preempt.py).  Every result is judged as if the call
+        had been made alone."""
+        import random
+
+        from func_adl.ast.ast_hash import calc_ast_hash
+        from func_adl.ast.meta_data import lookup_query_metadata, remove_empty_metadata
+
+        from .core import func_adl_src
+        from .preempt import Preempt
+
+        self.last_op = "threads"
+        jobs = []
+        for i, t in enumerate(op["threads"]):
+            kind = t["kind"]
+            m = self.live[t["stream"] % len(self.live)]
+            if kind == "derive":
+                pk, src = self.cfg["pool"][t["lam"] % len(self.cfg["pool"])]
+                jobs.append((kind, m, (pk, src), lambda m=m, pk=pk, src=src: getattr(m.stream, pk)(src)))
+            elif kind == "site":
+                k = t["lam"] % len(self.cfg["sites"])
+                site = self.cfg["sites"][k]
+                c = self.client
+                if (site.get("boom") or site.get("reent") is not None or site.get("cell")
+                        or not c.usable(k) or c.blocked_by(k) or c.none_bound(k)):
+                    continue
+                root_m = next(x for x in self.live if x.root == m.root and x.made_by in ("root", "dataset"))
+                refs = None
+                if "C04" in self.oracles:
+                    rf = c.fns[k][1]()
+                    le.reset_budget()
+                    refs = [le.outcome(rf, smp) for smp in SAMPLES]
+                jobs.append((kind, root_m, (k, site, refs),
+                             lambda root_m=root_m, k=k: c.fns[k][0](root_m.stream)))
+            elif kind == "lookup":
+                key = KEYS[t["lam"] % len(KEYS)]
+                jobs.append((kind, m, key, lambda m=m, key=key: lookup_query_metadata(m.stream, key)))
+            elif kind == "hash":
+                jobs.append((kind, m, calc_ast_hash(m.stream.query_ast),
+                             lambda m=m: calc_ast_hash(m.stream.query_ast)))
+            else:  # clean
+                jobs.append((kind, m, ast.dump(strip_empty_md(m.stream.query_ast)),
+                             lambda m=m: ast.dump(remove_empty_metadata(m.stream.query_ast))))
+        if len(jobs) < 2:
+            return
+        pr = Preempt(random.Random(mix(self.case["sched_seed"], "preempt", self.cur_id)), op["p"],
+                     func_adl_src().rstrip("/") + "/func_adl/")
+        n0 = self.exec_starts
+        res = pr.run([j[3] for j in jobs])
+        self.stat("fault_threads_inside_the_library")
+        self.stat("thread_switches_inside_the_library", pr.switches)
+        self.ev("mt_lib", len(jobs), pr.switches, pr.points)
+        if self.exec_starts != n0 and "C12" in self.oracles:
+            raise Violation("C12/build-exec", {"op": "threads"})
+        for (kind, m, info, _), (st, val) in zip(jobs, res):
+            if st == "exc":
+                if kind == "derive" and isinstance(val, Exception):
+                    self.stat("derive_raised")  # a designed refusal (type error ...) as when alone
+                    continue
+                raise Violation("C11/snapshot/threads" if self.prop == "C11" else f"{self.prop}/threads",
+                                {"kind": kind, "raised": repr(val)[:200],
+                                 "what": "a library call failed only because another thread was using the library"})
+            if kind == "derive":
+                m2 = self.add_stream(val, m.root, m, info[0], twin=None, lam_rec=None)
+                self.check_root(val, m2.root, "derive")
+            elif kind == "site":
+                k, site, refs = info
+                lam_rec = self.judge_site(site, k, val, refs)
+                m2 = self.add_stream(val, m.root, m, site["op"], twin=None, lam_rec=lam_rec)
+                self.check_root(val, m2.root, "derive-site")
+            elif kind == "lookup":
+                exp = m.md.get(info)
+                if "C16" in self.oracles and not same_qvalue(val, exp):
+                    raise Violation("C16/lookup/threads", {"key": info, "got": repr(val), "expected": repr(exp)})
+            elif kind == "hash":
+                if val != info and "C16" in self.oracles:
+                    raise Violation("C16/backend", {"what": "hash differs when another thread uses the library"})
+            elif kind == "clean":
+                if val != info and "C12" in self.oracles:
+                    raise Violation("C12/ast", {"what": "cleaned query differs when another thread uses the library",
+                                                "got": val[:300], "expected": info[:300]})
+
     def op_cancel(self, op, loop):
         if not self.tasks:
             return
@@ -2738,6 +2870,8 @@ class Forest:
                 self.op_mt(op)
             elif k == "drop":
                 self.op_drop(op)
+            elif k == "mt_lib":
+                self.op_mt_lib(op)
             self.resolved.append({**op, "id": self.cur_id, **self.cur_resolved})
             if self.pending is not None:
                 raise self.pending
